@@ -889,6 +889,10 @@ class StyleProperties:
 
     @classmethod
     def from_model(cls, xml_element, model_value: styles.TextEmphasisType):
+      if model_value is styles.SpecialValues.none:
+        xml_element.set(f"{{{cls.ns}}}{cls.local_name}", model_value.value)
+        return
+
       actual_values = []
 
       actual_values.append(model_value.style.value)
